@@ -15,7 +15,8 @@ TRUSTED = ["panics inside the third-party sqlparser, stack exhaustion and schedu
            "only explored (child process, timeout, memory limit)", "the go/ast extraction of panic sites, goroutines and recover boundaries"]
 RULE = ("proof part: totality theorems of every modelled component + obligations on the panic sites / goroutines / recover boundaries "
         "regenerated from the source; exploration part (labelled): the runner is a child process with a timeout and a memory limit; "
-        "streams = random byte strings, every generator of C01-C08/C12/C17, mutated queries, the listed crash shapes, all 8 option "
+        "streams = random byte strings, malformed/mutated selectors inside valid queries (interleaved with valid ones in one "
+        "process: a request that fails only after earlier requests is replayed and shrunk to that history), every generator of C01-C08/C12/C17, mutated queries, the listed crash shapes, all 8 option "
         "combinations, PARALLEL joins and ASYNC/SPIN calls that fail or panic on some row; observations = exit status, timeout, "
         "`fatal error`/panic lines; non-trivial = the query reaches Build (not a parse error) or is a listed crash shape")
 
@@ -33,6 +34,15 @@ CRASH_SHAPES = [
     "SELECT * FROM `t[0][0]`",
     "SELECT * FROM `t[(5:2)]`",
     "SELECT * FROM `t[(0:99)]`",
+    "SELECT * FROM `t[x]`",
+    "SELECT a FROM t",
+    "SELECT `arr[(1:2:3)]` AS v FROM t",
+    "SELECT `arr[0]` AS v FROM t",
+    "SELECT `arr[(a:b)]` AS v FROM t",
+    "SELECT `arr[each]` AS v FROM t",
+    "SELECT * FROM `nosuchfn=>t`",
+    "SELECT * FROM `t{a|bogus}`",
+    "SELECT * FROM `t::[`",
     "SELECT * FROM t x PARALLEL JOIN u y ON x.a + 1 = y.a",
     "SELECT * FROM t x PARALLEL JOIN u y ON VF_PANIC(TRUE) = y.a",
     "SELECT * FROM t x PARALLEL HASH_JOIN u y ON x.nokey.deep = y.a",
@@ -117,6 +127,17 @@ def explore(chk, rnd, tier):
             reqs.append({"op": "query", "doc": enc_val(doc), "sql": s, "wrapped": bool(opts & 1), "pg": bool(opts & 2),
                          "arr": bool(opts & 4), "vars": {} if "VAR" in s else None})
             kinds.append("shape")
+    # malformed / mutated path selectors inside otherwise valid queries, interleaved with valid ones in the same
+    # process: a failed selector must not leave anything behind (lock, cache entry) that stops a later query
+    from . import c09
+    for i in range(n // 4):
+        sel = c09.gen_selector(rnd, doc)
+        if rnd.random() < 0.7:
+            sel = c09.mutate(rnd, sel)
+        sel = sel.replace("`", "")
+        sql = rnd.choice(["SELECT * FROM `%s`", "SELECT `%s` AS v FROM t", "SELECT a FROM t WHERE `%s` IS NULL"]) % sel
+        reqs.append({"op": "query", "doc": enc_val(doc), "sql": sql})
+        kinds.append("selector-in-query")
     for t in c17.unit_cases(rnd, 300 if tier == "quick" else 5000, 0):
         reqs.append({"op": "query", "doc": enc_val(doc), "sql": "SELECT " + t + " FROM t", "pg": True, "arr": True})
         kinds.append("scanner-text")
